@@ -319,9 +319,14 @@ class StochasticActor(EvolvableNetwork):
         :return: Scaled action.
         :rtype: torch.Tensor
         """
-        return self.action_low + (
-            0.5 * (action + 1.0) * (self.action_high - self.action_low)
-        )
+        # NOTE: Algorithms also rescale actions that were already converted to numpy arrays
+        if isinstance(action, torch.Tensor):
+            low, high = self.action_low, self.action_high
+        else:
+            low = self.action_low.cpu().numpy()
+            high = self.action_high.cpu().numpy()
+
+        return low + (0.5 * (action + 1.0) * (high - low))
 
     def forward(
         self, obs: TorchObsType, action_mask: Optional[ArrayOrTensor] = None
